@@ -8,6 +8,7 @@
         prune_float_lin_eq (has the extra `has_unbounded_other` skip), prune_float_lin_le (a DIFFERENT algorithm, see below),
         prune_float_lin_ne, compute_sum_bounds_float, compute_fixed_sum_float (:1245-1460)
                                                         -> prune_flin_eq_reif / _le_reif / _ne_reif
+     Add<U,V>::prune        props/add.rs:33-45          -> prune_fadd      (U, V any fview; Sub = Add over Opposite)
      LessThanOrEquals<U,V>::prune  props/leq.rs:25-31   -> prune_fleq      (U, V any fview)
      Eq<U,V>::prune                props/eq.rs:17-26    -> prune_feq
      Propagators::less_than / greater_than / greater_than_or_equals (props/mod.rs:823-882, 1249-1284):
@@ -329,6 +330,49 @@ Definition prune_feq (x y : fview) (c : fctx) : option fctx :=
     end
   end.
 Definition mk_feq (x y : fview) : fprop := mkfprop (prune_feq x y) (under_list x ++ under_list y).
+
+(* ---------------------------------------------------------------- Add / Sub (float and mixed arms) *)
+(* impl Add / Sub for Val (variables/core.rs:229-259): int (+/-) int stays an integer (i32 overflow is not modelled: Z),
+   every other combination is computed in f64 after `i as f64` *)
+Definition val_add (a b : fval) : fval :=
+  match a, b with VlI x, VlI y => VlI (x + y) | _, _ => VlF (fadd (as_f a) (as_f b)) end.
+Definition val_sub (a b : fval) : fval :=
+  match a, b with VlI x, VlI y => VlI (x - y) | _, _ => VlF (fsub (as_f a) (as_f b)) end.
+
+(* Add<U,V>::prune (props/add.rs:33-45), x + y == s with s a VarId: six setter calls, every bound read from the context
+   as it is at that moment:
+     s.try_set_min(x.min + y.min)?; s.try_set_max(x.max + y.max)?;
+     x.try_set_min(s.min - y.max)?; x.try_set_max(s.max - y.min)?;
+     y.try_set_min(s.min - x.max)?; y.try_set_max(s.max - x.min)?; *)
+Definition prune_fadd (x y : fview) (s : nat) (c : fctx) : option fctx :=
+  match xset_min s (val_add (fv_min x (fst c)) (fv_min y (fst c))) c with
+  | None => None
+  | Some c1 =>
+    match xset_max s (val_add (fv_max x (fst c1)) (fv_max y (fst c1))) c1 with
+    | None => None
+    | Some c2 =>
+      match fv_set_min x (val_sub (var_min (fget (fst c2) s)) (fv_max y (fst c2))) c2 with
+      | None => None
+      | Some c3 =>
+        match fv_set_max x (val_sub (var_max (fget (fst c3) s)) (fv_min y (fst c3))) c3 with
+        | None => None
+        | Some c4 =>
+          match fv_set_min y (val_sub (var_min (fget (fst c4) s)) (fv_max x (fst c4))) c4 with
+          | None => None
+          | Some c5 => fv_set_max y (val_sub (var_max (fget (fst c5) s)) (fv_min x (fst c5))) c5
+          end
+        end
+      end
+    end
+  end.
+(* list_trigger_vars: once(s).chain(x.get_underlying_var()).chain(y.get_underlying_var()) *)
+Definition mk_fadd (x y : fview) (s : nat) : fprop := mkfprop (prune_fadd x y s) (s :: under_list x ++ under_list y).
+(* Propagators::sub (props/mod.rs:543-547): x - y = s is posted as Add(x, y.times_neg(Val::ValI(-1)), s), and
+   times_neg(-1) = TimesPos{ x: Opposite(y), scale: Val::ValI(1) } (views.rs:143-148).  TimesPos with the integer scale 1
+   reads a float bound as `b * 1.0` and passes a float target on as `t / 1.0` (views.rs:1194-1275), an integer bound as
+   `b * 1` / div_euclid(t, 1): the identity on every bit pattern (NaN payloads aside), so the view is modelled as
+   Opposite(y).  The differential (family fprop_exact, kind `sub`) checks this bit for bit. *)
+Definition mk_fsub (x y : fview) (s : nat) : fprop := mk_fadd x (FOpp y) s.
 
 (* ---------------------------------------------------------------- IntLinLe on a mixed store *)
 (* IntLinLe::prune (props/linear.rs:125-175) as it behaves when some of its variables are FLOAT variables -- which is
